@@ -129,6 +129,18 @@ def all_cliques(verts, edges, min_size=2):
     return out
 
 
+def fresh(x):
+    """A new object equal to x when x is an int outside CPython's small-int cache (so that two occurrences of one
+    vertex label are equal but not identical, as in any network with more than 257 vertices); x itself otherwise."""
+    if type(x) is int and not -6 < x < 257:
+        return int(str(x))
+    return x
+
+
+def fresh_edges(edges):
+    return [(fresh(a), fresh(b)) for a, b in edges]
+
+
 def relabelings(n, seed, kinds=("identity", "reversed", "shifted")):
     """Deterministic family of vertex relabelings; 'shifted' is a 1-based shuffled labelling chosen by seed."""
     out = []
@@ -142,6 +154,8 @@ def relabelings(n, seed, kinds=("identity", "reversed", "shifted")):
             lab = list(range(1, n + 1))
             rng.shuffle(lab)
             out.append(lab)
+        elif kind == "large":
+            out.append([1000 + 7 * i for i in range(n)])
         elif kind == "sparse":
             rng = _random.Random(2000 + seed * 104729 + n)
             lab = sorted(rng.sample(range(3, 40), n))
